@@ -1,0 +1,178 @@
+//go:build verif
+// +build verif
+
+// Verification hook for C14 (build tag "verif"), second part: VerifRun on a
+// play to which scenes are added whose concurrent actor lines consist of mood
+// changes.  prompter.runLine handles such steps (stepAmbiance) although
+// compileV2 only ever puts a mood change on a line of its own: this is the
+// way to have several lines report mood changes concurrently through the real
+// runScene / runLine / runMoodChange.  Only adds an exported wrapper.
+
+package cmd
+
+import (
+	"context"
+	"fmt"
+	"io/ioutil"
+	"os"
+	"os/exec"
+	"path/filepath"
+	"strings"
+	"time"
+
+	"github.com/knz/shakespeare/pkg/crdb/stop"
+	"github.com/knz/shakespeare/pkg/crdb/timeutil"
+)
+
+func stopNewForVerifC14() *stop.Stopper { return stop.NewStopper() }
+
+// VerifRunMoodLines is VerifRun, except that `rounds` scenes are inserted at
+// the end of the first act; in each of them every actor has one line of
+// `perLine` mood changes.
+func VerifRunMoodLines(cfgText string, earlyExit bool, timeout time.Duration, rounds, perLine int) (errText string, narration string) {
+	rd, err := newReaderFromString("<verif>", cfgText)
+	if err != nil {
+		return "reader: " + err.Error(), ""
+	}
+	defer rd.close()
+	cfg := newConfig()
+
+	workDir, err := ioutil.TempDir("", "shk-verif-run")
+	if err != nil {
+		return "tempdir: " + err.Error(), ""
+	}
+	defer os.RemoveAll(workDir)
+	cfg.dataDir = workDir
+	cfg.subDir = "results"
+
+	cfg.shellPath, err = exec.LookPath("bash")
+	if err != nil {
+		return "bash: " + err.Error(), ""
+	}
+	if err := cfg.parseCfg(context.TODO(), rd); err != nil {
+		return "parse error: " + renderError(err), ""
+	}
+	if err := cfg.compileV2(); err != nil {
+		return "compile error: " + renderError(err), ""
+	}
+	if len(cfg.play) == 0 || len(cfg.actorNames) == 0 {
+		return "compile error: the play needs an act and a cast", ""
+	}
+
+	// the added scenes
+	act := cfg.play[0]
+	at := time.Duration(0)
+	if n := len(act); n > 0 {
+		at = act[n-1].waitUntil
+		act = act[:n-1] // the closing wait of the act
+	}
+	moods := []string{"red", "blue", "green", "clear"}
+	k := 0
+	for r := 0; r < rounds; r++ {
+		sc := scene{waitUntil: at}
+		for _, an := range cfg.actorNames {
+			line := scriptLine{actor: cfg.actors[an]}
+			for j := 0; j < perLine; j++ {
+				line.steps = append(line.steps, step{typ: stepAmbiance, action: moods[k%len(moods)]})
+				k += 3
+			}
+			sc.concurrentLines = append(sc.concurrentLines, line)
+			k++
+		}
+		act = append(act, sc)
+		at += cfg.tempo
+	}
+	act = append(act, scene{waitUntil: at})
+	cfg.play[0] = act
+
+	cfg.skipLoggingInit = true
+	cfg.avoidTimeProgress = true
+	cfg.earlyExit = earlyExit
+	cfg.gnuplotPath = filepath.Join(workDir, "no-such-gnuplot")
+
+	ctx, bye := context.WithDeadline(context.TODO(), timeutil.Now().Add(timeout))
+	defer bye()
+
+	out, err := os.Create(filepath.Join(workDir, "narration.txt"))
+	if err != nil {
+		return "narration: " + err.Error(), ""
+	}
+	defer out.Close()
+	cfg.narration = out
+
+	err = cfg.run(ctx)
+
+	if err != nil {
+		errText = fmt.Sprintf("run error: %s", renderError(err))
+	}
+	b, _ := ioutil.ReadFile(filepath.Join(workDir, "narration.txt"))
+	return errText, strings.ReplaceAll(string(b), workDir, "...")
+}
+
+// VerifMoodHandoff runs the real audit() loop and the real collect() loop as
+// goroutines around real channels and hands each mood change, stamped with the
+// given time, first to the audit loop and then to the collector through the
+// prompter's own reportMoodEvent / reportCollectorEvent — exactly what
+// runMoodChange does after it has taken its time stamp.  Stamps that go back
+// in time are what the audit loop sees when two lines took their stamps in
+// one order and reached the channel in the other.  Returns the error texts of
+// the two loops and the recorded mood periods.
+func VerifMoodHandoff(events []VerifMoodEvent) (auErr, colErr string, periods []VerifMoodPeriod, minT, maxT float64) {
+	bg := context.Background()
+	cfg := newConfig()
+	tmp, err := ioutil.TempDir("", "shk-verif-handoff")
+	if err != nil {
+		panic(err)
+	}
+	defer os.RemoveAll(tmp)
+	cfg.dataDir = tmp
+	out, err := os.Create(filepath.Join(tmp, "narration.txt"))
+	if err != nil {
+		panic(err)
+	}
+	defer out.Close()
+	cfg.narration = out
+	cfg.avoidTimeProgress = true
+	ap := newApp(bg, cfg)
+	defer ap.close()
+	ap.stopper = stopNewForVerifC14()
+	defer ap.stopper.Stop(bg)
+	ap.openDoors(bg)
+	th := ap.makeTheater(bg)
+	ctx, cancel := context.WithCancel(bg)
+	defer cancel()
+	auDone := make(chan error, 1)
+	colDone := make(chan error, 1)
+	go func() { auDone <- th.au.audit(ctx) }()
+	go func() { colDone <- th.col.collect(ctx) }()
+	for _, e := range events {
+		ev := &moodChange{ts: e.Ts, newMood: e.Mood}
+		if err := th.pr.reportMoodEvent(ctx, ev); err != nil {
+			break
+		}
+		if err := th.pr.reportCollectorEvent(ctx, ev); err != nil {
+			break
+		}
+	}
+	// the spotlight supervisor's last word ends the audit loop, whose own
+	// last word ends the collector
+	th.spm.signalAuditTermination(ctx)
+	wait := func(ch chan error) string {
+		select {
+		case err := <-ch:
+			if err != nil {
+				return err.Error()
+			}
+			return ""
+		case <-time.After(20 * time.Second):
+			cancel()
+			return "the loop does not end"
+		}
+	}
+	auErr = wait(auDone)
+	colErr = wait(colDone)
+	for _, p := range ap.auRes.moodPeriods {
+		periods = append(periods, VerifMoodPeriod{Start: p.startTime, End: p.endTime, Mood: p.mood})
+	}
+	return auErr, colErr, periods, ap.minTime, ap.maxTime
+}
